@@ -24,6 +24,13 @@ func newNumberDecoder(structName, fieldName string, op func(unsafe.Pointer, json
 	}
 }
 
+// a json.Number keeps the text of the number: a value beyond the float64 range
+// ( 1e400 ) is a valid number, as it is for encoding/json
+func isRangeError(err error) bool {
+	numErr, ok := err.(*strconv.NumError)
+	return ok && numErr.Err == strconv.ErrRange
+}
+
 func (d *numberDecoder) DecodeStream(s *Stream, depth int64, p unsafe.Pointer) error {
 	bytes, err := d.decodeStreamByte(s)
 	if err != nil {
@@ -33,7 +40,7 @@ func (d *numberDecoder) DecodeStream(s *Stream, depth int64, p unsafe.Pointer) e
 		// null leaves the destination as it is
 		return nil
 	}
-	if _, err := strconv.ParseFloat(*(*string)(unsafe.Pointer(&bytes)), 64); err != nil {
+	if _, err := strconv.ParseFloat(*(*string)(unsafe.Pointer(&bytes)), 64); err != nil && !isRangeError(err) {
 		return errors.ErrSyntax(err.Error(), s.totalOffset())
 	}
 	if !validNumber(bytes) {
@@ -53,7 +60,7 @@ func (d *numberDecoder) Decode(ctx *RuntimeContext, cursor, depth int64, p unsaf
 		// null leaves the destination as it is
 		return c, nil
 	}
-	if _, err := strconv.ParseFloat(*(*string)(unsafe.Pointer(&bytes)), 64); err != nil {
+	if _, err := strconv.ParseFloat(*(*string)(unsafe.Pointer(&bytes)), 64); err != nil && !isRangeError(err) {
 		return 0, errors.ErrSyntax(err.Error(), c)
 	}
 	if !validNumber(bytes) {
